@@ -195,6 +195,77 @@ harness!(
 });
 
 // ---------------------------------------------------------------------------------------------
+// strings, byte strings, options
+
+/// `&[u8]` serializes as a sequence in serde; this goes through `serialize_bytes`
+struct AsBytes<'a>(&'a [u8]);
+impl<'a> Serialize for AsBytes<'a> {
+    fn serialize<S: serde::Serializer>(&self, s: S) -> Result<S::Ok, S::Error> {
+        s.serialize_bytes(self.0)
+    }
+}
+
+harness!(
+    /// str under string (all well-formed UTF-8 of <= 4 bytes) and bytes under bytes (all byte
+    /// strings of <= 4 bytes): zig-zag length prefix + raw payload, count == bytes emitted
+    ser_str_bytes, unwind = 8, {
+    let names = no_names();
+    let d: [u8; 4] = any_bytes();
+    let len = any_usize();
+    assume(len <= 4);
+    let mut want = [0u8; 5];
+    want[0] = (len as u8) << 1;
+    let mut i = 0;
+    while i < len { want[1 + i] = d[i]; i += 1; }
+    let v = vec_upto4(d, len);
+    if any_bool() {
+        assume(spec::utf8_valid(&d, len));
+        let s = match std::str::from_utf8(&v) { Ok(s) => s, Err(_) => { assert!(false, "reference UTF-8 predicate accepted what std rejects"); return; } };
+        witness!(len >= 2 && d[0] >= 0xC2, "multi-byte code point");
+        expect(ser(&s, &Schema::String, &names, None), &want, len + 1);
+    } else {
+        witness!(len == 4 && d[3] >= 0x80, "longest payload, non-ASCII");
+        expect(ser(&AsBytes(&v), &Schema::Bytes, &names, None), &want, len + 1);
+    }
+    leak(v);
+    leak(names);
+});
+
+fn option_case<const NULL_FIRST: bool>(names: &Names) {
+    use crate::schemas::*;
+    let schema = if NULL_FIRST { union(vec![Schema::Null, Schema::Long]) } else { union(vec![Schema::Long, Schema::Null]) };
+    let x: Option<i64> = if any_bool() { Some(any_i64()) } else { None };
+    let mut want = [0u8; 16];
+    let null_idx = if NULL_FIRST { 0u8 } else { 1u8 };
+    let wl = match x {
+        None => {
+            want[0] = null_idx << 1;
+            1
+        }
+        Some(n) => {
+            want[0] = (1 - null_idx) << 1;
+            let mut l = [0u8; 10];
+            let k = spec::enc_long(n, &mut l);
+            let mut i = 0;
+            while i < k { want[1 + i] = l[i]; i += 1; }
+            witness!(k == 10, "longest varint");
+            1 + k
+        }
+    };
+    expect(ser(&x, &schema, names, None), &want, wl);
+    leak(schema);
+}
+harness!(
+    /// Option<i64> under union [null, long] and under [long, null]: branch index of the position
+    /// the branch actually has, then the datum; all values
+    ser_option, unwind = 12, {
+    let names = no_names();
+    option_case::<true>(&names);
+    option_case::<false>(&names);
+    leak(names);
+});
+
+// ---------------------------------------------------------------------------------------------
 // structs: record serializer (in-order fields, out-of-order fields through the field cache)
 
 #[derive(Serialize)]
@@ -253,6 +324,8 @@ pub const HARNESSES: &[(&str, fn())] = &[
     ("c16::ser_mismatch_writes_nothing", ser_mismatch_writes_nothing::body),
     ("c16::ser_struct_in_order", ser_struct_in_order::body),
     ("c16::ser_struct_out_of_order", ser_struct_out_of_order::body),
+    ("c16::ser_str_bytes", ser_str_bytes::body),
+    ("c16::ser_option", ser_option::body),
     ("c16::de_long", de_long::body),
     ("c16::de_scalars", de_scalars::body),
 ];
